@@ -11,30 +11,30 @@ func init() {
 	register("C07", func(e *Env) {
 		renderPrelude()
 		e.perShard = 50
-		e.rep.Rule = "truthiness matrix: every value kind of the pool (+ Go-only kinds, + an unknown identifier) in the six contexts if / else-if / ! / !! / && true / || false, which must agree with each other and with the documented table (nil, false, empty string, empty HTML, nil pointers, unknown identifiers falsy; everything else truthy); if/else-if/else chains of 1..5 branches under every truth assignment with counting helpers as conditions, at top level and nested in for / fn / block helper: the output must be the first truthy branch and the log must show exactly conditions 1..k evaluated; distinct by template+assignment"
+		e.rep.Rule = "truthiness matrix: every value kind of the pool (+ Go-only kinds, + an unknown identifier) in the ten contexts if / else-if / ! / !! / x && true / x || false / true && x / false || x / else-if (true && x) / !(false || x), which must agree with each other and with the documented table (nil, false, empty string, empty HTML, nil pointers, unknown identifiers falsy; everything else truthy); if/else-if/else chains of 1..5 branches under every truth assignment with counting helpers as conditions, at top level and nested in for / fn / block helper: the output must be the first truthy branch and the log must show exactly conditions 1..k evaluated; distinct by template+assignment"
 		pool := c04pool()
 		falsy := map[string]bool{"vnil": true, "vf": true, "ve": true, "vnp": true}
 		ctxT := func(x string) string {
-			return fmt.Sprintf("<%%= if (%s) { %%>Y<%% } %%>|<%%= if (vf) { %%>a<%% } else if (%s) { %%>Y<%% } %%>|<%%= !%s %%>|<%%= !!%s %%>|<%%= %s && true %%>|<%%= %s || false %%>", x, x, x, x, x, x)
+			return fmt.Sprintf("<%%= if (%s) { %%>Y<%% } %%>|<%%= if (vf) { %%>a<%% } else if (%s) { %%>Y<%% } %%>|<%%= !%s %%>|<%%= !!%s %%>|<%%= %s && true %%>|<%%= %s || false %%>|<%%= true && %s %%>|<%%= false || %s %%>|<%%= if (false) { %%>a<%% } else if (true && %s) { %%>Y<%% } else { %%>N<%% } %%>|<%%= !(false || %s) %%>", x, x, x, x, x, x, x, x, x, x)
 		}
 		want := func(t bool) string {
 			if t {
-				return "Y|Y|false|true|true|true"
+				return "Y|Y|false|true|true|true|true|true|Y|false"
 			}
-			return "||true|false|false|false"
+			return "||true|false|false|false|false|false|N|true"
 		}
 		for _, b := range pool {
 			c := RCase{Tmpl: ctxT(b.Name), Binds: pool}
 			o := e.addRenderCase("matrix", c)
 			if o.Class != "OK" || o.Out != want(!falsy[b.Name]) {
-				e.Violate("c07-truthiness", fmt.Sprintf("%s (%s): six contexts gave %q (%s), want %q", b.Name, b.V.K, o.Out, o.Class, want(!falsy[b.Name])), map[string]interface{}{"case": c, "observed": o})
+				e.Violate("c07-truthiness", fmt.Sprintf("%s (%s): the contexts gave %q (%s), want %q", b.Name, b.V.K, o.Out, o.Class, want(!falsy[b.Name])), map[string]interface{}{"case": c, "observed": o})
 			}
 		}
 		{
 			c := RCase{Tmpl: ctxT("undefinedVar"), Binds: pool}
 			o := e.addRenderCase("matrix", c)
 			if o.Class != "OK" || o.Out != want(false) {
-				e.Violate("c07-truthiness", fmt.Sprintf("unknown identifier: six contexts gave %q (%s)", o.Out, o.Class), map[string]interface{}{"case": c, "observed": o})
+				e.Violate("c07-truthiness", fmt.Sprintf("unknown identifier: the contexts gave %q (%s)", o.Out, o.Class), map[string]interface{}{"case": c, "observed": o})
 			}
 		}
 		extra := c04extra()
@@ -45,7 +45,7 @@ func init() {
 			e.rep.Evaluations++
 			e.Count("matrix-goonly")
 			if o.Class != "OK" || o.Out != want(!xfalsy[k]) {
-				e.Violate("c07-truthiness", fmt.Sprintf("%s (%T): six contexts gave %q (%s), want %q", k, extra[k], o.Out, o.Class, want(!xfalsy[k])), map[string]interface{}{"tmpl": c.Tmpl, "observed": o})
+				e.Violate("c07-truthiness", fmt.Sprintf("%s (%T): the contexts gave %q (%s), want %q", k, extra[k], o.Out, o.Class, want(!xfalsy[k])), map[string]interface{}{"tmpl": c.Tmpl, "observed": o})
 			}
 		}
 		// chains
